@@ -58,7 +58,7 @@ ASSUMPTIONS = [
     "measure-directly: both sides are asked for the same named basis (post-processing is only defined then)",
 ]
 PROBES = ["bell:PHI_PLUS", "bell:PSI_PLUS", "bell:PSI_MINUS", "bell:PHI_MINUS", "variant:recv_keep", "variant:recv_keep_info",
-          "variant:recv_keep_post", "variant:recv_rsp", "variant:recv_rsp_info", "variant:recv_measure", "measure-per-pair-bell-states", "measure-receiver-told-basis", "keep-single-pair-sequential-flag", "post-routine-non-sequential", "pairs>=2", "other-live-qubits", "nv",
+          "variant:recv_keep_post", "variant:recv_rsp", "variant:recv_rsp_info", "variant:recv_measure", "measure-per-pair-bell-states", "measure-receiver-told-basis", "keep-single-pair-sequential-flag", "post-routine-non-sequential", "receive-context-form", "pairs>=2", "other-live-qubits", "nv",
           "expect-off", "correction-due-on-pair>=1", "basis-non-Z"]
 
 VARIANTS = ["recv_keep", "recv_keep_info", "recv_keep_post", "recv_rsp", "recv_measure", "recv_rsp_info"]
@@ -84,6 +84,10 @@ def run(ch: Choices, opts: Dict[str, Any]) -> Dict[str, Any]:
     expect = not ch.flag(1, 5, "expect-off")
     hw = "generic" if calm else ch.pick(["generic", "generic", "nv"])
     transp = hw == "nv" and ch.flag(1, 2, "transpiler")
+    # the context-manager form of a receive (its body plays the post routine; it has no expectation switch: default on)
+    ctxform = variant == "recv_keep_post" and (not calm) and hw == "generic" and "recv-context" not in avoid and ch.flag(1, 4, "ctxform")
+    if ctxform:
+        expect = True
     n_other = 0 if calm else ch.draw(3, "nother")
     if "corrections-with-shifted-ids" in avoid and variant in ("recv_keep", "recv_keep_info", "recv_rsp", "recv_rsp_info") and hw == "generic":
         # recorded finding: corrections address virtual qubit 0 -> only exercise layouts where pair i sits on id 0
@@ -214,11 +218,18 @@ def run(ch: Choices, opts: Dict[str, Any]) -> Dict[str, Any]:
                     if state["post_basis"] == "X":
                         q.H()
                     q.measure(future=outcomes.get_future_index(pair))
-                # the post routine may also be given without the sequential mode (every pair then has its own ID)
-                post_seq = calm or hw == "nv" or ch.flag(2, 3, "postseq")
-                if not post_seq:
-                    bump(probes, "post-routine-non-sequential")
-                sock.recv_keep(number=n_pairs, post_routine=post, sequential=post_seq, expect_phi_plus=expect)
+                if ctxform:
+                    bump(probes, "receive-context-form")
+                    with sock.recv_context(number=n_pairs, sequential=True) as (q, pair):
+                        if state["post_basis"] == "X":
+                            q.H()
+                        q.measure(future=outcomes.get_future_index(pair))
+                else:
+                    # the post routine may also be given without the sequential mode (every pair then has its own ID)
+                    post_seq = calm or hw == "nv" or ch.flag(2, 3, "postseq")
+                    if not post_seq:
+                        bump(probes, "post-routine-non-sequential")
+                    sock.recv_keep(number=n_pairs, post_routine=post, sequential=post_seq, expect_phi_plus=expect)
                 state["outcomes"] = outcomes
             elif variant == "recv_rsp":
                 state["rqs"] = sock.recv_rsp(number=n_pairs, expect_phi_plus=expect)
@@ -341,7 +352,7 @@ def run(ch: Choices, opts: Dict[str, Any]) -> Dict[str, Any]:
                 want = HGATE @ (np.array([1, 0], dtype=complex) if (m ^ int(flip)) == 0 else np.array([0, 1], dtype=complex))
             f = uni.fidelity_with([cslot], want)
             if f < 1 - EPS:
-                raise Violation("state", f"post|partner-not-correlated|pair{'>=1' if i else '0'}|basis={state['post_basis']}|expect={'on' if expect else 'off'}|{hw}",
+                raise Violation("state", f"post|partner-not-correlated|pair{'>=1' if i else '0'}|basis={state['post_basis']}|expect={'on' if expect else 'off'}|{hw}{'|context-form' if ctxform else ''}",
                                 {"pair": i, "delivered": b.name, "outcome": m, "fidelity": f, **sample})
     else:
         # measure-directly: accumulate the exact distribution of (creator outcome, receiver post-processed outcome)
